@@ -265,6 +265,29 @@ Section ABF.
   Definition abf_run_data (c : abf_cfg) (l : list dataset) (h : list abf_in) :=
     abf_run_from c (abf_init_data c l) h.
 
+  (* ---- state files.  colvarbias_abf::read_state_data replaces the grids: samples->read_raw (count := value read),
+     gradients->read_raw (value_input without add: data := gradient read * count).  Everything else the bias
+     applies must be a function of these grids.
+     EvRestart: the state is loaded into a new instance (new module: step_relative 0 at its first step, every other
+     field as after init).  EvReload: the state is loaded into the instance that is running (`cv load`): the grids are
+     replaced, it_restart := it (the next regular step has step_relative 1), everything else is kept. *)
+  Definition abf_set_grids (c : abf_cfg) (s : abf_state) (d : dataset) (rel : Z) : abf_state :=
+    mkSt (fst d)
+         (fun b => vbuild (c_nd c) (fun k => nmul O (vget (snd d b) k) (nofZ O (fst d b))))
+         (s_bin s) (s_fbin s) (s_fabf s) (s_fprev s) (s_ft s) (s_fold s) (s_eng s) (s_fj s) rel (s_started s).
+  Inductive abf_event :=
+  | EvStep (i : abf_in)
+  | EvRestart (d : dataset)
+  | EvReload (d : dataset).
+  Definition abf_event_apply (c : abf_cfg) (s : abf_state) (ev : abf_event) : abf_state :=
+    match ev with
+    | EvStep i => fst (abf_step c s i)
+    | EvRestart d => abf_set_grids c (abf_init c) d 0
+    | EvReload d => abf_set_grids c s d 0
+    end.
+  Definition abf_run_events (c : abf_cfg) (evs : list abf_event) : abf_state :=
+    fold_left (abf_event_apply c) evs (abf_init c).
+
   (* ------------------------------------------------------------------------------------------
      Specification: the attributed samples of a history.
      A trace is the history zipped with what Colvars applied at each step. *)
